@@ -281,8 +281,20 @@ def check_property(prop, tier, seed, replay=None):
 
     # ---- run-time layer
     scen = mod.scenarios(tier, seed) if hasattr(mod, "scenarios") else []
-    rt = run_scenarios(modname, scen, timeout=getattr(mod, "SCENARIO_TIMEOUT", 300),
-                       workers=getattr(mod, "SCENARIO_WORKERS", 4))
+    workers = getattr(mod, "SCENARIO_WORKERS", 4)
+    if tier == "thorough" and hasattr(mod, "scenarios"):
+        # the thorough tier widens the bounded layer: the scenario families of several derived seeds (VERIF_THOROUGH_SEEDS,
+        # default 4), identical parameter sets run once
+        extra = max(1, int(os.environ.get("VERIF_THOROUGH_SEEDS", "4")))
+        seen_p = {json.dumps(p_, sort_keys=True, default=str) for p_ in scen}
+        for k in range(1, extra):
+            for p_ in mod.scenarios(tier, seed + 37 * k):
+                key_ = json.dumps(p_, sort_keys=True, default=str)
+                if key_ not in seen_p:
+                    seen_p.add(key_)
+                    scen.append(p_)
+        workers = min(8, max(workers, 2 * workers))
+    rt = run_scenarios(modname, scen, timeout=getattr(mod, "SCENARIO_TIMEOUT", 300), workers=workers)
     rt_fail = []
     rt_err = []
     rt_evals = 0
